@@ -24,7 +24,8 @@ STDS = ("c++17", "c++20")
 RUNTIME_FILES = {"diplomat_runtime.h", "diplomat_runtime.hpp", "diplomat-runtime.mjs", "diplomat-wasm.mjs", "diplomat-runtime.d.ts"}
 # documented user-supplied file (docs/npm_packaging.md): the only import that may leave the generated tree
 JS_EXTERNAL = {("diplomat-wasm.mjs", "../diplomat.config.mjs")}
-BUDGET = {"quick": 95.0, "thorough": 1500.0}
+# wall budget for the compile phases, counted from the end of the (possibly cold) cargo builds
+BUDGET = {"quick": 85.0, "thorough": 1800.0}
 
 
 class Unit:
@@ -516,6 +517,11 @@ def macro_isolate(tier, modules, role_names, stderr, crate, rep, cnt, cb_ok=()):
         errs2 = rustc_errors(p2.stderr)
         for k, (role, n, src) in sorted(iso.items()):
             if k in errs2 and n is None:
+                parts = role.split("|")
+                if len(parts) == 3:
+                    bad_labels = {v[0] for kk, v in iso.items() if kk in errs2 and v[1] is None}
+                    alone = [x for x in ("%s|%s" % (parts[0], parts[1]), "%s|%s" % (parts[0], parts[2])) if x in bad_labels]
+                    role = alone[0] if alone else role
                 failed.add(role)
                 msg = re.sub(r"^src/\w+\.rs:\d+:\d+: ", "", errs2[k][0])
                 rep.violation("C09|macro|%s" % role, {"stage": "cargo", "module": k, "source": src, "errors": errs2[k][:8], "cmd": "cargo build --offline"},
@@ -618,6 +624,7 @@ def run(tier):
                           js_configs=[("js.abi=spec",), ("js.abi=legacy",)] if name == "feature_tests" else [("js.abi=spec",)]))
 
     tg = time.time()
+    deadline = tg + BUDGET[tier]
     pmap(lambda u: generate(u, wd, notes), units)
     ua.out["c"] = ("c", b["hdr"], ())  # generated by c01.build_all just now
     cnt.add("tool_runs", sum(len(u.out) + len(u.rejected) for u in units))
@@ -824,6 +831,13 @@ def run(tier):
         base = os.path.basename(ty)
         if base in u.labels or ty in u.labels:
             label = u.labels.get(base) or u.labels.get(ty)
+            # a (param kind, return kind) pair that fails together with one of its kinds alone is the same finding as that kind
+            parts = label.split("|")
+            if len(parts) == 3:
+                failing_labels = {u.labels.get(os.path.basename(g[3])) for g in groups if g[0] == uid and g[1] == lang}
+                alone = [x for x in ("%s|%s" % (parts[0], parts[1]), "%s|%s" % (parts[0], parts[2])) if x in failing_labels]
+                if alone:
+                    label = alone[0]
             key = "C09|%s|%s%s" % (lang, label, std_note)
             item = next((it for it in cb_ok if it[0] == base), None)
             if item:
